@@ -186,3 +186,76 @@ class Gen:
                     m.compute_sizes()
                 self._mods[name] = m
         return self._mods[name]
+
+
+# ------------------------------------------------------------------------------------ MIR of /repo's crates
+MIR_TARGETS = {
+    "runtime": ["-p", "pdl-runtime", "--lib"],
+    "compiler": ["-p", "pdl-compiler", "--lib"],
+    "compiler_java": ["-p", "pdl-compiler", "--lib", "--features", "java"],
+    "pdlc": ["-p", "pdl-compiler", "--bin", "pdlc"],
+    "derive": ["-p", "pdl-derive", "--lib"],
+}
+_FP = {"runtime": "pdl-runtime-*", "compiler": "pdl-compiler-*", "compiler_java": "pdl-compiler-*",
+       "pdlc": "pdl-compiler-*", "derive": "pdl-derive-*"}
+
+
+def stage_mir(which):
+    """rustc's own MIR (resolved callees, generic arguments) for one crate of /repo, built
+    with the real build's flags by cargo; cargo's freshness cache is defeated by removing the
+    crate's fingerprints first."""
+    name = f"mir-{which}"
+
+    def build(d):
+        tdir = os.path.join(core.CACHE, "target-nightly")
+        for fp in glob.glob(os.path.join(tdir, "debug", ".fingerprint", _FP[which])):
+            shutil.rmtree(fp, ignore_errors=True)
+        cmd = ["cargo", "+nightly", "rustc", "--offline"] + MIR_TARGETS[which] + \
+              ["--", "-Zunpretty=mir", "-Zmir-opt-level=0", "-Awarnings"]
+        p = sh(cmd, cwd=REPO, env={"CARGO_TARGET_DIR": tdir}, check=False, timeout=1800)
+        if p.returncode != 0:
+            raise StageError(f"MIR dump of {which} failed:\n" + p.stderr[-4000:])
+        if "fn " not in p.stdout:
+            raise StageError(f"MIR dump of {which} is empty (cargo freshness?)")
+        with open(os.path.join(d, "mir.txt"), "w") as f:
+            f.write(p.stdout)
+
+    return os.path.join(run_stage(name, build), "mir.txt")
+
+
+def mir_bodies(which):
+    from . import mirfacts
+    return mirfacts.parse(open(stage_mir(which)).read())
+
+
+def stage_syn_repo():
+    """syn JSON of every .rs file under /repo's crates (source rules)."""
+    def build(d):
+        build_tools()
+        files = []
+        for crate in ("pdl-compiler/src", "pdl-runtime/src", "pdl-derive/src"):
+            for root, dirs, fs in os.walk(os.path.join(REPO, crate)):
+                for f in fs:
+                    if f.endswith(".rs"):
+                        files.append(os.path.join(root, f))
+        idx = {}
+        for f in sorted(files):
+            rel = os.path.relpath(f, REPO)
+            out = os.path.join(d, rel.replace("/", "__") + ".json")
+            p = sh([os.path.join(TOOLBIN, "syn2json"), f, out], check=False)
+            if p.returncode == 0:
+                idx[rel] = out
+            else:
+                idx[rel] = None
+        json.dump(idx, open(os.path.join(d, "index.json"), "w"))
+    d = run_stage("syn-repo", build)
+    return d
+
+
+def repo_syn(rel):
+    d = stage_syn_repo()
+    idx = json.load(open(os.path.join(d, "index.json")))
+    p = idx.get(rel)
+    if not p:
+        return None
+    return json.load(open(p))
